@@ -349,6 +349,11 @@ func (p *Prog) constErrorVar(o types.Object) bool {
 					if pk.TypesInfo.Defs[nm] != o || i >= len(vs.Values) {
 						continue
 					}
+					if u, ok := vs.Values[i].(*ast.UnaryExpr); ok && u.Op == token.AND {
+						if _, isLit := u.X.(*ast.CompositeLit); isLit {
+							return true // var x = &T{...}, never assigned again: a non-nil constant
+						}
+					}
 					call, ok := vs.Values[i].(*ast.CallExpr)
 					if !ok {
 						return false
